@@ -380,6 +380,38 @@ theorem c06_datafield_fresh_inv (f : D → S → P → V) (d : D) (s : S) :
 
 end datafield
 
+/-- the data / source the field machine holds are those of the last `initNew` / `changeSource` -/
+def C06.fieldLastData {D S P : Type} (d0 : D) : List (FieldOp D S P) → D
+  | [] => d0
+  | .initNew d :: ops => C06.fieldLastData d ops
+  | _ :: ops => C06.fieldLastData d0 ops
+
+def C06.fieldLastSrc {D S P : Type} (s0 : S) : List (FieldOp D S P) → S
+  | [] => s0
+  | .changeSource s :: ops => C06.fieldLastSrc s ops
+  | _ :: ops => C06.fieldLastSrc s0 ops
+
+theorem c06_datafield_current_data_src {D S P V : Type} [DecidableEq P] (f : D → S → P → V)
+    (reset : Bool) (ops : List (FieldOp D S P)) (st : FieldSt D S P V) :
+    (fieldRun f reset st ops).1.data = C06.fieldLastData st.data ops ∧
+    (fieldRun f reset st ops).1.src = C06.fieldLastSrc st.src ops := by
+  induction ops generalizing st with
+  | nil => exact ⟨rfl, rfl⟩
+  | cons op ops ih =>
+    have := ih (fieldStep f reset st op).1
+    cases op with
+    | compute p =>
+      have hd : (fieldStep f reset st (.compute p)).1.data = st.data ∧
+          (fieldStep f reset st (.compute p)).1.src = st.src := by
+        simp only [fieldStep, fieldCalc]
+        split
+        · split <;> exact ⟨rfl, rfl⟩
+        · exact ⟨rfl, rfl⟩
+      simp only [fieldRun, C06.fieldLastData, C06.fieldLastSrc]
+      rw [hd.1, hd.2] at this
+      exact this
+    | _ => exact this
+
 /-- pinned commit (no reset): the values computed for the first source are handed out for the second -/
 theorem c06_datafield_counterexample :
     let f : Nat → Nat → Nat → Nat := fun d s p => d + 10 * s + 100 * p
@@ -722,6 +754,48 @@ theorem c06_top_cascade_needed_counterexample :
     (evalPure C06.W0 false 1 0 q).1 = [[1]] := by decide
 
 end counterexamples
+
+/-- the integer-scaled hit test of `c06_isclose_counterexample` *is* numpy's `isclose` (model
+`Cache.isclose`, default `rtol`, `atol`) on a grid with spacing 0.1: grid index `a` ↦ value `a/10` -/
+theorem c06_isclose_scaled_is_isclose (a b : ℤ) :
+    isclose (1e-5 : ℚ) (1e-8 : ℚ) ((a : ℚ) / 10) ((b : ℚ) / 10) = C06.iscloseScaled a b := by
+  have habs : ∀ z : ℚ, (if z < (0.0 : ℚ) then (0.0 : ℚ) - z else z) = |z| := by
+    intro z
+    have h0 : (0.0 : ℚ) = 0 := by norm_num
+    rw [h0]
+    split
+    · rename_i h; rw [abs_of_neg h]; ring
+    · rename_i h; rw [abs_of_nonneg (not_lt.mp h)]
+  have h1 : (((a - b).natAbs : ℕ) : ℚ) = |(a : ℚ) - b| := by
+    rw [Nat.cast_natAbs]; push_cast; rfl
+  have h2 : ((b.natAbs : ℕ) : ℚ) = |(b : ℚ)| := by
+    rw [Nat.cast_natAbs]; push_cast; rfl
+  simp only [isclose, habs, C06.iscloseScaled]
+  have key : (|(a : ℚ) / 10 - (b : ℚ) / 10| ≤ (1e-8 : ℚ) + (1e-5 : ℚ) * |(b : ℚ) / 10|) ↔
+      ((a - b).natAbs * 10 ^ 7 ≤ 1 + 100 * b.natAbs) := by
+    have e1 : |(a : ℚ) / 10 - (b : ℚ) / 10| = |(a : ℚ) - b| / 10 := by
+      rw [← sub_div, abs_div]; norm_num
+    have e2 : |(b : ℚ) / 10| = |(b : ℚ)| / 10 := by rw [abs_div]; norm_num
+    rw [e1, e2, ← h1, ← h2]
+    constructor
+    · intro h
+      have : (((a - b).natAbs * 10 ^ 7 : ℕ) : ℚ) ≤ ((1 + 100 * b.natAbs : ℕ) : ℚ) := by
+        push_cast
+        norm_num at h ⊢
+        linarith
+      exact_mod_cast this
+    · intro h
+      have : (((a - b).natAbs * 10 ^ 7 : ℕ) : ℚ) ≤ ((1 + 100 * b.natAbs : ℕ) : ℚ) := by exact_mod_cast h
+      push_cast at this
+      norm_num at this ⊢
+      linarith
+  by_cases hk : ((a - b).natAbs * 10 ^ 7 ≤ 1 + 100 * b.natAbs)
+  · have hk' := hk
+    norm_num at hk'
+    simp [key.mpr hk, hk']
+  · have hk' := hk
+    norm_num at hk'
+    simp [mt key.mp hk, hk']
 
 /-- numpy's default tolerances really identify adjacent MJD-sized grid points (exact rationals) -/
 theorem c06_isclose_identifies_mjd_cells :
